@@ -439,6 +439,18 @@ class Table:
         if callable(arg):
             return list(compress(count(lo),map(arg,col)))
 
+        if method == "bisect":
+            is_collection = comparison in ["in","!in"] or (comparison is None and isinstance(arg,collections.abc.Iterable) and not isinstance(arg,str))
+
+            if is_collection and isinstance(arg,str):
+                #membership in a string is a substring test, it can't be bisected so we scan the range
+                keep = (lambda c: c not in arg) if comparison == "!in" else (lambda c: c in arg)
+                return [ (i,i+1) for i,c in enumerate(col[lo:hi],lo) if keep(c) ]
+
+            #Missing == None so None is how missing values are asked for but only Missing can be ordered against a column's values
+            if arg is None: arg = Missing
+            elif is_collection: arg = [ Missing if a is None else a for a in arg ]
+
         if comparison == "in" or (comparison is None and isinstance(arg,collections.abc.Iterable) and not isinstance(arg,str)):
             if method == "bisect":
                 return [ (my_bisect_left(col,v,lo,hi),my_bisect_right(col,v,lo,hi)) for v in sorted(set(arg)) ]
